@@ -571,6 +571,17 @@ add("permutation_relabels_by_enumerate", (GU, "    m_relabeled = nx.relabel_node
 add("v3000_atom_table_sorted_by_number", (V3, "    return atom_attrs, star_atoms", "    return dict(sorted(atom_attrs.items())), star_atoms"), fires={"R-V3SAMPLE"},
     note="atoms in the order of their numbers in the file, not in file order")
 
+add("parser_bond_adder_asserts_what_the_handler_checked", (PAR, "        self._bonds.append((index1 - 1, index2 - 1))", "        assert index1 != index2\n        self._bonds.append((index1 - 1, index2 - 1))"),
+    silent=True, note="the assertion restates the guard in front of the only call (`if index1 == index2: raise`)")
+add("parser_bond_adder_asserts_an_order", (PAR, "        self._bonds.append((index1 - 1, index2 - 1))", "        assert index1 < index2\n        self._bonds.append((index1 - 1, index2 - 1))"),
+    fires={"R-ESCAPE"}, note="`(2-1)` is a valid tuple: AssertionError instead of a graph (shown on a sample string)")
+add("canonical_labels_counted_from_one", (CAN, "for new, old in enumerate(old_labels_in_canonical_order)}", "for new, old in enumerate(old_labels_in_canonical_order, 1)}"),
+    fires={"R-BLISS"}, note="a one-to-one renaming, but onto 1..n")
+add("sort_relabel_map_one_short", (GU, "list(range(m.number_of_nodes()))", "list(range(m.number_of_nodes() - 1))"), fires={"R-BIJ"},
+    note="zip truncates: the last atom keeps its label and can merge with another")
+add("refinement_rounds_bounded_by_constant", (CAN, "    while True:\n        m_refined = partition_molecule_by_attribute(m, PARTITION)", "    for _ in range(1000):\n        m_refined = partition_molecule_by_attribute(m, PARTITION)"),
+    fires={"R-FIXPOINT"}, note="nothing is handed out when the rounds run out")
+
 add("v3000_endpts_search_untested", (V3, """    if endpts_match is None:
         # silently ignore everything that has no ENDPTS (e.g. use of star atoms in polymers)
         return []
